@@ -60,7 +60,8 @@ class EnumAdvance:
                     if r == ("arg", sa) and p == ["head"]:
                         sym = G.Sym(b)
                         e = sym.rvalue(s["rv"])
-                        if e.startswith("Add(a%d.head," % sa):
+                        sp = G._split(e[:-2] if e.endswith(".0") else e)
+                        if sp and sp[0] == "Add" and "a%d.head" % sa in sp[1]:
                             return "advance-arg"
                         return "move"
         return None
